@@ -144,7 +144,7 @@ def _graph_case(draw, ctx):
     return {"kind": "graph", "spec": spec, "faults": faults}
 
 
-PRODUCERS = ["copy_then_edit", "strip_blackboxes", "logic", "limit_fanin", "limit_fanout", "ternary", "unroll", "miter", "sensitization",
+PRODUCERS = ["remove_unloaded", "copy_then_edit", "strip_blackboxes", "logic", "limit_fanin", "limit_fanout", "ternary", "unroll", "miter", "sensitization",
              "sensitivity", "acyclic_unroll", "acyclic_unroll_cyc", "insert_registers", "add_subcircuit",
              "fill_blackbox", "verilog_rt", "verilog_fast_rt", "bench_rt", "sequential_unroll", "supergates"]
 
@@ -156,6 +156,9 @@ def _producer_case(draw, ctx):
         return {"kind": "producer", "producer": p, "arg": draw(st.integers(1, 12))}
     if p == "copy_then_edit":
         spec = draw(S.circuit_spec(min_inputs=1, max_inputs=3, min_gates=1, max_gates=6, max_fanin=3, max_insts=2))
+    elif p == "remove_unloaded":
+        spec = draw(S.circuit_spec(min_inputs=1, max_inputs=3, min_gates=2, max_gates=9, max_fanin=3, max_insts=2, outputs="random",
+                                   unconnected_pins=draw(st.sampled_from([False, "outputs"]))))
     elif p == "strip_blackboxes":
         pools = (S.BENIGN,) if draw(st.booleans()) else (S.BENIGN[:8], ["u0_q", "u0_d", "u1_q", "u0_clk", "u0_Y", "u0_A", "u1_d"])
         spec = draw(S.circuit_spec(min_inputs=1, max_inputs=3, min_gates=1, max_gates=7, max_fanin=3, max_insts=2, pools=pools,
@@ -319,6 +322,9 @@ def _check_producer(case, ctx):
                 need(lib(tgt.fill_blackbox, victim, fill), "producer|copy_then_edit|fill", p)
         _lint_both(other, "untouched circuit after the other one was edited")
         res = tgt
+    elif p == "remove_unloaded":
+        need(lib(c.remove_unloaded, inputs=False) if case["pick"] % 2 else lib(c.remove_unloaded), "producer|remove_unloaded", p)
+        res = c
     elif p == "strip_blackboxes":
         # optionally ignore one pin name (given as str or as list, both documented): an input pin, or an
         # output pin that no instance has connected -- then nothing is left undriven and the result must be lint-clean
@@ -415,7 +421,8 @@ def _check_producer(case, ctx):
         c.add("qbuf", "buf", output=True)
         c.add("clk", "input")
         c.add_blackbox(cg.generic_flop, "ff0", {"d": d, "q": "qbuf", "clk": "clk"})
-        res = need(lib(cg.tx.sequential_unroll, c, case["n"], "d", "q"), "producer|sequential_unroll", p)[0]
+        iv_ = [None, "0", "1", {"ff0": "1"}][case["pick"] % 4]
+        res = need(lib(cg.tx.sequential_unroll, c, case["n"], "d", "q", initial_values=iv_), "producer|sequential_unroll", p)[0]
     elif p == "supergates":
         res = need(lib(cg.tx.supergates, c, True), "producer|supergates", p)[0]
     ng = _lint_both(res, p)
